@@ -612,6 +612,19 @@ class Model(IOSpecOperation, EditableParent):
 
                     calc_targets.append(n._impl)
 
+            # The values that the model held before are not in the trace:
+            # those the targets were calculated from are taken from the graph,
+            # so that they are planned, and cleared below, like the others
+            graph = self._impl.tracegraph
+            known = set(calculated)
+            for n in calc_targets:
+                if graph.has_node(n):
+                    for p in itertools.chain((n,), nx.ancestors(graph, n)):
+                        if (p not in known and node_has_key(p)
+                                and p[KEY] not in p[OBJ].input_keys):
+                            known.add(p)
+                            calculated.append(p)
+
             result = self._impl.get_calcsteps(
                 calc_targets, calculated, step_size)
 
